@@ -24,7 +24,10 @@ def is_int(x):
 
 
 def dist3(a, b):
-    return math.sqrt((b[0] - a[0]) ** 2 + (b[1] - a[1]) ** 2 + (b[2] - a[2]) ** 2)
+    try:
+        return math.sqrt((b[0] - a[0]) ** 2 + (b[1] - a[1]) ** 2 + (b[2] - a[2]) ** 2)
+    except OverflowError:            # a changed implementation may put nodes at astronomical coordinates
+        return float("inf")
 
 
 def first_label(cfg):
